@@ -186,7 +186,11 @@ def main():
             jobs.append((sub, pos, {p.name: None}))
             if "bool" in str(p.annotation):
                 jobs.append((sub, pos, {p.name: False}))
-            for v in vals[p.name]:
+            # free-text keywords additionally get the empty string, a falsy-looking text, text with a space and a
+            # non-ASCII letter, and texts that look like Python keywords (truthiness / str() slips in the wrapper)
+            free_text = "str" in str(p.annotation) and "bool" not in str(p.annotation) and not (clap_arg(sub, long_of(p.name)) or {}).get("possible_values") and p.name not in ("repo_path", "stdin", "source")
+            extras = ["", "0", "é x", "None", "False"] if free_text else []
+            for v in list(vals[p.name]) + extras:
                 kw = {p.name: v}
                 if p.name == "stdin":
                     kw["source"] = "stdin"
